@@ -926,7 +926,7 @@ func (t *tScreen) drawCell(x, y int) int {
 		// URL string can be long, so don't send it unless we really need to
 		if t.enterUrl != "" && t.curstyle != style {
 			if style.url != "" {
-				t.TPuts(ti.TParm(t.enterUrl, style.url, style.urlId))
+				t.putsText(t.enterUrl, style.url, style.urlId)
 			} else {
 				t.TPuts(t.exitUrl)
 			}
@@ -1034,6 +1034,18 @@ func (t *tScreen) writeString(s string) {
 	} else {
 		_, _ = io.WriteString(t.tty, s)
 	}
+}
+
+// putsText emits a parameterized capability whose parameters are text from
+// the application (a title, a URL).  Padding is a matter of the capability:
+// a "$<...>" in the text is text, it is neither removed nor slept on.
+func (t *tScreen) putsText(capability string, p ...interface{}) {
+	s := t.ti.TParm(capability, p...)
+	if strings.Contains(capability, "$<") {
+		t.TPuts(s)
+		return
+	}
+	t.writeString(s)
 }
 
 func (t *tScreen) TPuts(s string) {
@@ -2169,7 +2181,7 @@ func (t *tScreen) engage() error {
 	t.TPuts(ti.DisableAutoMargin)
 	t.TPuts(ti.Clear)
 	if t.title != "" && t.setTitle != "" {
-		t.TPuts(t.ti.TParm(t.setTitle, t.title))
+		t.putsText(t.setTitle, t.title)
 	}
 
 	t.wg.Add(2)
@@ -2263,7 +2275,7 @@ func (t *tScreen) SetTitle(title string) {
 	t.Lock()
 	t.title = title
 	if t.setTitle != "" && t.running {
-		t.TPuts(t.ti.TParm(t.setTitle, title))
+		t.putsText(t.setTitle, title)
 	}
 	t.Unlock()
 }
